@@ -30,7 +30,11 @@ RULE = (
     "(spike, channel) positions whose channel is stored for that spike). Oracle: double loop "
     "window(s)[r,j] = A[s-n//2+r, ch[j]] if the row exists and ch[j] != -1 else 0. Non-trivial: "
     "a spike within the half window of an end, or on a chunk bound with >=2 chunks, or unsigned "
-    "spike dtype, or a -1 channel, or an odd window, or a window longer than the recording.")
+    "spike dtype, or a -1 channel, or an odd window, or a window longer than the recording."
+    ' Later additions: read-only spike/channel arrays that must come back unchanged; float record'
+    'ings with NaN/inf; one chunk of waveforms beyond 16 MiB; a sparse recording of 2**31+200 (th'
+    'orough 2**32+200) samples with spikes beyond sample 2**31; model-level wrappers get_template'
+    '/cluster_spike_waveforms.')
 ASSUMPTIONS = ['mtscomp as codec', 'sample values are small integers and factors dyadic, so every '
                'product is exact in float32/float64']
 
